@@ -138,6 +138,11 @@ void throw_error () {
 
 static volatile int in_error = 0;
 static volatile int in_mudlib_error_handler = 0;
+#ifdef LOG_CATCHES
+/* the catch that master::error_handler() is reporting to, and the limit-error state of the reported error */
+static error_context_t *volatile reported_context = 0;
+static volatile int reported_limit_state = 0;
+#endif
 
 static void debug_message_with_location (const char *err) {
   if (current_object && current_prog)
@@ -210,12 +215,24 @@ void error_handler (const char *err) {
           debug_message_with_location (err);
           dump_trace (g_trace_flag);
           in_mudlib_error_handler = 0;
+          /* master::error_handler() failed and its error goes to the catch it was reporting to */
+          if (current_error_context == reported_context)
+            set_error_state (reported_limit_state);
         }
       else
         {
+          /* do_catch() decides whether this error may be caught by looking at the limit-error
+           * state after the longjmp() below. master::error_handler() runs in between, and every
+           * error context it pops (its own catch(), a safe_apply() such as sprintf("%O") ->
+           * master::object_name()) clears that state: keep it across the call. */
+          int limit_state = get_error_state (ES_STACK_FULL | ES_MAX_EVAL_COST);
+
+          reported_context = current_error_context;
+          reported_limit_state = limit_state;
           in_mudlib_error_handler = 1;
           mudlib_error_handler (err, 1);
           in_mudlib_error_handler = 0;
+          set_error_state (limit_state);
         }
 #endif	/* LOG_CATCHES */
 
